@@ -7,7 +7,16 @@ import (
 	"github.com/gontainer/gontainer/internal/pkg/output"
 )
 
-func init() { vfRegister("VF_C12_printer", VF_C12_printer) }
+func init() {
+	vfRegister("VF_C12_patterns", VF_C12_patterns)
+	vfRegister("VF_C12_printer", VF_C12_printer)
+}
+
+// vfShort: an ASCII string of 0..n characters, character by character (byte
+// operations on it are exact).
+func vfShort(name string, n int) string {
+	return vfASCIIString(name, vfChoice(name+".len", n+1))
+}
 
 type vfStepT struct {
 	name string
@@ -51,4 +60,19 @@ func VF_C12_printer() {
 	}
 	vfObserve("out", w.out)
 	vfReach("C12_printer")
+}
+
+// VF_C12_patterns: the read step is total in its patterns: arbitrary short ASCII
+// strings (the empty one included; cobra only requires the flag to be present) never
+// make it panic; it ends with a result or an error.
+func VF_C12_patterns() {
+	p0, p1 := vfShort("p0", 2), vfShort("p1", 1)
+	VfEnv = VfEnvT{Patterns: []string{"known"}, GlobErr: []bool{false}, GlobFiles: [][]string{{"a.yaml"}}, ReadErr: map[string]bool{}, YamlErr: map[string]bool{},
+		Inputs: map[string]input.Input{"a.yaml": {}}}
+	var in input.Input
+	err := NewStepReadConfig(&VfPrinter{}, []string{p0, p1}).Run(&in, nil)
+	if p0 != "known" && p1 != "known" {
+		vfAssert(err != nil, "patterns that match nothing fail the step")
+	}
+	vfReach("C12_patterns")
 }
